@@ -361,7 +361,7 @@ func (c *Ctx) checkCollector(f *ssa.Function) {
 
 func ruleC07Symbols(c *Ctx) {
 	contents := c.fn("/sizes", "*HistorySize", "contents")
-	newItem := c.fn("/sizes", "", "newItem")
+	newItem := c.itemCtor()
 	if contents == nil || newItem == nil {
 		c.violate("C07.symbols", "contents", token.NoPos, "", "the report's item list builder (sizes.(*HistorySize).contents / newItem) not found")
 		return
@@ -662,7 +662,7 @@ func (c *Ctx) checkSetter(set *ssa.Function) {
 
 func ruleC08Siblings(c *Ctx) {
 	contents := c.fn("/sizes", "*HistorySize", "contents")
-	newItem := c.fn("/sizes", "", "newItem")
+	newItem := c.itemCtor()
 	if contents == nil || newItem == nil {
 		c.violate("C08.siblings", "contents", token.NoPos, "", "the report's item list builder not found")
 		return
@@ -813,25 +813,50 @@ func ruleC08ParentKind(c *Ctx) {
 			continue
 		}
 		allInstrs(f, func(in ssa.Instruction) {
-			call, ok := in.(*ssa.Call)
-			if !ok {
-				return
-			}
-			cal := call.Call.StaticCallee()
-			if cal == nil || !c.inRuleScope(cal) || cal.Signature.Results().Len() != 1 || !isPtrToNamed(cal.Signature.Results().At(0).Type(), modPath+"/sizes", "Path") {
-				return
-			}
-			n++
 			var lit string
 			var oidOK bool
-			for _, a := range call.Call.Args {
-				if s, ok := constStr(a); ok {
-					lit = s
-				}
-				if p, ok := c.resolve(a).(*ssa.Parameter); ok && p.Parent() == f && isNamed(p.Type(), modPath+"/git", "OID") && p == f.Params[1] {
-					oidOK = true
-				}
+			isOwnOID := func(a ssa.Value) bool {
+				p, ok := c.resolve(a).(*ssa.Parameter)
+				return ok && p.Parent() == f && isNamed(p.Type(), modPath+"/git", "OID") && len(f.Params) > 1 && p == f.Params[1]
 			}
+			switch x := in.(type) {
+			case *ssa.Call:
+				cal := x.Call.StaticCallee()
+				if cal == nil || !c.inRuleScope(cal) || cal.Signature.Results().Len() != 1 || !isPtrToNamed(cal.Signature.Results().At(0).Type(), modPath+"/sizes", "Path") {
+					return
+				}
+				for _, a := range x.Call.Args {
+					if s, ok := constStr(a); ok {
+						lit = s
+					}
+					if isOwnOID(a) {
+						oidOK = true
+					}
+				}
+			case *ssa.Alloc:
+				// the referrer's path created in place: &Path{OID: oid, objectType: "...", …}
+				if !isNamed(x.Type().Underlying().(*types.Pointer).Elem(), modPath+"/sizes", "Path") {
+					return
+				}
+				for _, r := range *x.Referrers() {
+					fa, ok := r.(*ssa.FieldAddr)
+					if !ok {
+						continue
+					}
+					for _, st := range storesTo(fa) {
+						if s, ok := constStr(st.Val); ok && isBasicString(fieldOfAddr(fa).Var.Type()) {
+							lit = s
+						}
+						if isOwnOID(st.Val) {
+							oidOK = true
+						}
+					}
+				}
+			default:
+				return
+			}
+			call := in
+			n++
 			key := fnName(f)
 			switch {
 			case lit != kind:
@@ -1072,4 +1097,9 @@ func ruleC08Refcount(c *Ctx) {
 	if n < 2 {
 		c.violate("C08.refcount", "floor", token.NoPos, "", fmt.Sprintf("only %d assignments of a parent link found (tree entries and commit trees expected)", n))
 	}
+}
+
+func isBasicString(t types.Type) bool {
+	b, ok := t.Underlying().(*types.Basic)
+	return ok && b.Kind() == types.String
 }
